@@ -447,6 +447,12 @@ def r20_6(run, model):
                 ok = bool(callers) and all(callers)
                 why = f"parameter; {sum(callers)}/{len(callers)} callers pass a separator-built argument"
             led = WHOLE_LEDGER.get((f.name, at))
+            if led is None:
+                # the ledgered function may have become a thin wrapper (`colon_colon_completions` forwarding to `.._with_options`): the
+                # entry goes with the body
+                for g_ in model.fns(f.file):
+                    if g_ is not f and g_.body is not None and model._behind_wrapper(g_) is f and (g_.name, at) in WHOLE_LEDGER:
+                        led = WHOLE_LEDGER[(g_.name, at)]
             run.ob("R20.6", f"{f.name}|{c['method']}({at}) compares whole segments", ok or led is not None, site(f.file, c["sp"]),
                    why + (f"; ledger: {led}" if led and not ok else ""),
                    witness="import Geo plus struct GeoPoint in Main: `Geo::` offers `Point` (and `metric` from trait Geometric) - items that do not exist in Geo")
